@@ -46,7 +46,7 @@ def _fits_val(spec, v):
         return set(v) <= set(spec[1])
     if isinstance(spec, tuple) and spec and spec[0] == "strcat":
         import re as _re
-        return isinstance(v, str) and _re.fullmatch("".join("(?s:.*)" if p == "str" else _re.escape(p) for p in spec[1]), v) is not None
+        return isinstance(v, str) and _re.fullmatch("".join("(?s:.*)" if p == "str" else ("(?s:[^%s]*)" % _re.escape(p[1])) if isinstance(p, tuple) else _re.escape(p) for p in spec[1]), v) is not None
     if isinstance(spec, tuple) and spec and spec[0] == "list":
         return isinstance(v, list) and len(v) == len(spec[1]) and all(_fits_val(s, x) for s, x in zip(spec[1], v))
     if isinstance(spec, tuple) and spec and spec[0] == "node":
